@@ -962,6 +962,8 @@ impl<'a> Exec<'a> {
 
     fn do_checkpoint(&mut self, step: usize, fault: Option<Fault>, obs: &mut Obs) -> Result<(), Violation> {
         self.resync(obs);
+        // what the store itself shows right before the call (used below when the clock does not move)
+        let shown_before = observe(self.store.as_ref().unwrap().st(), &[]);
         disk_begin(fault);
         clock::begin_call();
         let store = self.store.as_mut().unwrap();
@@ -981,7 +983,21 @@ impl<'a> Exec<'a> {
         if tmin != tmax {
             obs.count("fault.clock_ticked_during_checkpoint");
         }
-        let snap = snapshot_of(&self.m, tmin, tmax);
+        let mut snap = snapshot_of(&self.m, tmin, tmax);
+        // "the unexpired keys the store held when that checkpoint was taken": when the observation right before
+        // the call and every clock reading of the call show ONE instant, the store's own answer at that instant
+        // settles every key the model had left open (an update that may or may not have refreshed a TTL, a
+        // boundary instant): shown present => in the snapshot, shown absent => not in it
+        if tmin == tmax && shown_before.tmin == tmin && shown_before.tmax == tmin && !snap.maybe.is_empty() {
+            let open: Vec<String> = snap.maybe.keys().cloned().collect();
+            for k in open {
+                let v = snap.maybe.remove(&k).unwrap();
+                if let Some(Some(_)) = shown_before.gets.get(&k) {
+                    snap.must.insert(k, v);
+                }
+            }
+            obs.count("probe.open_ttl_question_settled_by_the_store_s_own_answer");
+        }
         if !snap.maybe.is_empty() {
             obs.count("probe.ttl_boundary_either");
         }
